@@ -471,6 +471,19 @@ _INTEGER_VALUE_PRESERVING_OPS: frozenset[str] = frozenset(
 )
 
 
+def _op_type(node: ir.Node) -> str:
+    """Operator name for pattern matching: only default-domain nodes are ONNX operators.
+
+    A node of another domain (e.g. a call of a user ``@onnx_function`` that happens
+    to be named ``Relu`` or ``Transpose``) must never be taken for the standard
+    operator of the same name, so it gets a name no pattern matches.
+    """
+    domain = getattr(node, "domain", "") or ""
+    if domain in ("", "ai.onnx"):
+        return str(node.op_type)
+    return f"{domain}::{node.op_type}"
+
+
 def _is_standard_onnx_node(node: ir.Node, op_type: str) -> bool:
     """Match an operator only in ONNX's default domain."""
     return node.op_type == op_type and (getattr(node, "domain", "") or "") == ""
@@ -535,7 +548,7 @@ def _known_integer_scalar(
     producer = _producer_node(nodes, value)
     if (
         producer is None
-        or producer.op_type not in _INTEGER_VALUE_PRESERVING_OPS
+        or _op_type(producer) not in _INTEGER_VALUE_PRESERVING_OPS
         or (getattr(producer, "domain", "") or "") != ""
     ):
         return None
@@ -572,7 +585,7 @@ def _known_integer_value_bounds(
         return None
     inputs = _node_inputs(producer)
     if (
-        producer.op_type in _INTEGER_VALUE_PRESERVING_OPS
+        _op_type(producer) in _INTEGER_VALUE_PRESERVING_OPS
         and (getattr(producer, "domain", "") or "") == ""
     ):
         if not inputs or inputs[0] is None:
@@ -775,7 +788,7 @@ def _is_scalar_const_value(val: Optional[ir.Value]) -> bool:
 
 def _is_elementwise_node(node: ir.Node) -> bool:
     return (
-        node.op_type in ELEMENTWISE_UNARY_OPS or node.op_type in ELEMENTWISE_BINARY_OPS
+        _op_type(node) in ELEMENTWISE_UNARY_OPS or _op_type(node) in ELEMENTWISE_BINARY_OPS
     )
 
 
@@ -861,7 +874,7 @@ def _refresh_elementwise_output_shape(node: ir.Node) -> None:
     if not outs:
         return
     ins = _node_inputs(node)
-    if node.op_type == "CastLike":
+    if _op_type(node) == "CastLike":
         # CastLike's second input supplies only the target dtype. It does not
         # participate in broadcasting, so the output shape is always the shape
         # of the data input.
@@ -871,7 +884,7 @@ def _refresh_elementwise_output_shape(node: ir.Node) -> None:
     src = _elementwise_shape_source(ins)
     if src is None:
         return
-    if node.op_type in {"Cast", "CastLike", "Not"}:
+    if _op_type(node) in {"Cast", "CastLike", "Not"}:
         # These ops can change dtype; keep existing dtype metadata untouched.
         _copy_shape_only(outs[0], src)
     else:
@@ -918,7 +931,7 @@ def _collect_transpose_elementwise_chain(
         producer = _producer_node(nodes, val)
         if producer is None:
             return None
-        if producer.op_type == "Transpose":
+        if _op_type(producer) == "Transpose":
             if source_transpose is None:
                 source_transpose = producer
             elif source_transpose is not producer:
@@ -963,7 +976,7 @@ def _collect_transpose_elementwise_forest(
         producer = _producer_node(nodes, val)
         if producer is None:
             return None
-        if producer.op_type == "Transpose":
+        if _op_type(producer) == "Transpose":
             transpose_nodes.add(producer)
             continue
         if not _is_elementwise_node(producer):
@@ -991,7 +1004,7 @@ def remove_redundant_transpose_reduce_ir(graph: ir.Graph) -> None:
         changed = False
         nodes = list(graph)
         for node in nodes:
-            if node.op_type != "Transpose":
+            if _op_type(node) != "Transpose":
                 continue
 
             # Pattern: T1 -> Reduce -> T2 (node)
@@ -1003,7 +1016,7 @@ def remove_redundant_transpose_reduce_ir(graph: ir.Graph) -> None:
                 continue
 
             reducer = _producer_node(nodes, node_input)
-            if reducer is None or reducer.op_type != "ReduceMean":
+            if reducer is None or _op_type(reducer) != "ReduceMean":
                 continue
 
             reducer_ins = _node_inputs(reducer)
@@ -1014,7 +1027,7 @@ def remove_redundant_transpose_reduce_ir(graph: ir.Graph) -> None:
                 continue
 
             t1 = _producer_node(nodes, reducer_input)
-            if t1 is None or t1.op_type != "Transpose":
+            if t1 is None or _op_type(t1) != "Transpose":
                 continue
 
             perm2 = _transpose_perm(node)
@@ -1155,7 +1168,7 @@ def _collect_add_transpose_forest(
     Transpose(perm_fwd) and external outputs are wrapped by one
     Transpose(perm_inv). Returns None when the pattern does not match.
     """
-    if start.op_type != "Add":
+    if _op_type(start) != "Add":
         return None
 
     perm_fwd: Optional[List[int]] = None
@@ -1170,7 +1183,7 @@ def _collect_add_transpose_forest(
         node = queue.pop(0)
         if node in add_set:
             continue
-        if node.op_type != "Add":
+        if _op_type(node) != "Add":
             return None
 
         ins = _node_inputs(node)
@@ -1181,13 +1194,13 @@ def _collect_add_transpose_forest(
         transpose_input_count = 0
         for iv in ins:
             prod = _producer_node(nodes, iv)
-            if prod is not None and prod.op_type == "Add":
+            if prod is not None and _op_type(prod) == "Add":
                 add_input_count += 1
                 if prod not in add_set:
                     # Keep traversal strictly forward from the selected root.
                     return None
                 continue
-            if prod is None or prod.op_type != "Transpose":
+            if prod is None or _op_type(prod) != "Transpose":
                 return None
             perm = _transpose_perm(prod)
             if perm is None:
@@ -1214,11 +1227,11 @@ def _collect_add_transpose_forest(
             return None
         consumers = _consumer_nodes(nodes, out)
         for consumer in consumers:
-            if consumer.op_type == "Add":
+            if _op_type(consumer) == "Add":
                 if consumer not in add_set:
                     queue.append(consumer)
                 continue
-            if consumer.op_type != "Transpose":
+            if _op_type(consumer) != "Transpose":
                 return None
             perm = _transpose_perm(consumer)
             if perm is None:
@@ -1257,7 +1270,7 @@ def remove_redundant_transpose_add_forests_ir(graph: ir.Graph) -> None:
         changed = False
         nodes = list(cast(NodeSeq, graph))
         for start in nodes:
-            if start.op_type != "Add":
+            if _op_type(start) != "Add":
                 continue
 
             match = _collect_add_transpose_forest(nodes, start)
@@ -1270,7 +1283,7 @@ def remove_redundant_transpose_add_forests_ir(graph: ir.Graph) -> None:
                 ins = _node_inputs(add_node)
                 for idx, iv in enumerate(ins):
                     prod = _producer_node(nodes, iv)
-                    if prod is None or prod.op_type != "Transpose":
+                    if prod is None or _op_type(prod) != "Transpose":
                         continue
                     perm = _transpose_perm(prod)
                     if perm is None or perm != perm_fwd:
@@ -1337,7 +1350,7 @@ def remove_redundant_transpose_pairs_ir(graph: ir.Graph) -> None:
         # Pass -1: collapse Add chains surrounded by transposes (NHWC <-> NCHW)
         visited_adds: Set[ir.Node] = set()
         for start in nodes:
-            if start.op_type != "Add":
+            if _op_type(start) != "Add":
                 continue
             if start in visited_adds:
                 continue
@@ -1350,7 +1363,7 @@ def remove_redundant_transpose_pairs_ir(graph: ir.Graph) -> None:
             prev: Optional[ir.Node] = None
             cur: Optional[ir.Node] = start
             while cur is not None:
-                if cur.op_type != "Add":
+                if _op_type(cur) != "Add":
                     ok = False
                     break
                 ins = _node_inputs(cur)
@@ -1368,7 +1381,7 @@ def remove_redundant_transpose_pairs_ir(graph: ir.Graph) -> None:
                     if prod is not None and prod is prev:
                         has_prev_input = True
                         continue
-                    if prod is None or prod.op_type != "Transpose":
+                    if prod is None or _op_type(prod) != "Transpose":
                         ok = False
                         break
                     perm = _transpose_perm(prod)
@@ -1398,13 +1411,13 @@ def remove_redundant_transpose_pairs_ir(graph: ir.Graph) -> None:
                     ok = False
                     break
                 consumers = _consumer_nodes(nodes, out)
-                add_consumers = [c for c in consumers if c.op_type == "Add"]
-                other_consumers = [c for c in consumers if c.op_type != "Add"]
+                add_consumers = [c for c in consumers if _op_type(c) == "Add"]
+                other_consumers = [c for c in consumers if _op_type(c) != "Add"]
                 if len(add_consumers) > 1:
                     ok = False
                     break
                 for consumer in other_consumers:
-                    if consumer.op_type != "Transpose":
+                    if _op_type(consumer) != "Transpose":
                         ok = False
                         break
                     perm = _transpose_perm(consumer)
@@ -1443,7 +1456,7 @@ def remove_redundant_transpose_pairs_ir(graph: ir.Graph) -> None:
                 ins = _node_inputs(node)
                 for idx, iv in enumerate(ins):
                     prod = _producer_node(nodes, iv)
-                    if prod is None or prod.op_type != "Transpose":
+                    if prod is None or _op_type(prod) != "Transpose":
                         continue
                     perm = _transpose_perm(prod)
                     if perm is None or perm != perm_fwd:
@@ -1461,7 +1474,7 @@ def remove_redundant_transpose_pairs_ir(graph: ir.Graph) -> None:
                 if out is None:
                     continue
                 for consumer in _consumer_nodes(nodes, out):
-                    if consumer.op_type != "Transpose":
+                    if _op_type(consumer) != "Transpose":
                         continue
                     perm = _transpose_perm(consumer)
                     if perm is None or perm != perm_inv:
@@ -1484,7 +1497,7 @@ def remove_redundant_transpose_pairs_ir(graph: ir.Graph) -> None:
         # Pass -0.5: fold inverse transpose around elementwise DAG with
         # multiple transpose inputs (e.g., scale + residual add).
         for t2_node in nodes:
-            if t2_node.op_type != "Transpose":
+            if _op_type(t2_node) != "Transpose":
                 continue
             t2_in = _first_input(t2_node)
             if not isinstance(t2_in, ir.Value):
@@ -1523,7 +1536,7 @@ def remove_redundant_transpose_pairs_ir(graph: ir.Graph) -> None:
                 for consumer in _consumer_nodes(nodes, out):
                     if consumer in elem_nodes:
                         continue
-                    if consumer.op_type != "Transpose":
+                    if _op_type(consumer) != "Transpose":
                         ok = False
                         break
                     perm = _transpose_perm(consumer)
@@ -1590,7 +1603,7 @@ def remove_redundant_transpose_pairs_ir(graph: ir.Graph) -> None:
             continue
         # Pass 0: fold inverse transpose pairs around elementwise-only chains
         for t2_node in nodes:
-            if t2_node.op_type != "Transpose":
+            if _op_type(t2_node) != "Transpose":
                 continue
             t2_in = _first_input(t2_node)
             if not isinstance(t2_in, ir.Value):
@@ -1664,7 +1677,7 @@ def remove_redundant_transpose_pairs_ir(graph: ir.Graph) -> None:
         i = 0
         while i < len(nodes):
             n = nodes[i]
-            if n.op_type != "Transpose":
+            if _op_type(n) != "Transpose":
                 i += 1
                 continue
             T1 = n
@@ -1688,7 +1701,7 @@ def remove_redundant_transpose_pairs_ir(graph: ir.Graph) -> None:
                 while steps < 8:
                     steps += 1
                     m = cur
-                    if m.op_type in ALLOWED_ELEMWISE:
+                    if _op_type(m) in ALLOWED_ELEMWISE:
                         cur_val = _node_output(m)
                         if _value_is_observed(graph, nodes, cur_val):
                             break
@@ -1701,7 +1714,7 @@ def remove_redundant_transpose_pairs_ir(graph: ir.Graph) -> None:
                             for pos, iv in enumerate(_node_inputs(m))
                             if iv is not None
                             and iv is not prev_val
-                            and not (m.op_type == "CastLike" and pos == 1)
+                            and not (_op_type(m) == "CastLike" and pos == 1)
                         ]
                         if any(not _is_scalar_const_value(iv) for iv in side_inputs):
                             break
@@ -1713,7 +1726,7 @@ def remove_redundant_transpose_pairs_ir(graph: ir.Graph) -> None:
                             break
                         cur = next_nodes[0]
                         continue
-                    if m.op_type == "Transpose":
+                    if _op_type(m) == "Transpose":
                         chain_nodes.append(m)
                         T2 = m
                     break
@@ -1728,7 +1741,7 @@ def remove_redundant_transpose_pairs_ir(graph: ir.Graph) -> None:
                 if TRN_DEBUG:
                     print(
                         "[transposefold]",
-                        [node.op_type for node in chain_nodes],
+                        [_op_type(node) for node in chain_nodes],
                         "perm1",
                         perm1,
                         "perm2",
@@ -1774,7 +1787,7 @@ def remove_redundant_transpose_pairs_ir(graph: ir.Graph) -> None:
                 # Find direct Transpose consumers that cancel with T1
                 removed_any = False
                 for consumer in consumers:
-                    if consumer.op_type != "Transpose":
+                    if _op_type(consumer) != "Transpose":
                         continue
                     T2 = consumer
                     perm2 = _transpose_perm(T2)
@@ -1785,9 +1798,9 @@ def remove_redundant_transpose_pairs_ir(graph: ir.Graph) -> None:
                         print(
                             "[transposefold/multi]",
                             "T1 ->",
-                            T1.op_type,
+                            _op_type(T1),
                             "T2 ->",
-                            T2.op_type,
+                            _op_type(T2),
                             "perm1",
                             perm1,
                             "perm2",
@@ -1840,7 +1853,7 @@ def remove_redundant_reshape_pairs_ir(graph: ir.Graph) -> None:
                 if prod_node is None:
                     break
                 if (
-                    prod_node.op_type in ALLOWED_ELEMWISE
+                    _op_type(prod_node) in ALLOWED_ELEMWISE
                     and (getattr(prod_node, "domain", "") or "") == ""
                 ):
                     allowed_nodes.append(prod_node)
@@ -1882,7 +1895,7 @@ def remove_redundant_reshape_pairs_ir(graph: ir.Graph) -> None:
                 for pos, iv in enumerate(_node_inputs(node)):
                     if iv is None or iv is prev_val:
                         continue
-                    if node.op_type == "CastLike" and pos == 1:
+                    if _op_type(node) == "CastLike" and pos == 1:
                         continue
                     if not _is_scalar_const_value(iv):
                         safe_chain = False
@@ -1918,7 +1931,7 @@ def remove_redundant_reshape_pairs_ir(graph: ir.Graph) -> None:
             if RSH_DEBUG:
                 print(
                     "[reshapefold/up]",
-                    [n.op_type for n in ([T1] + allowed_fwd + [T2])],
+                    [_op_type(n) for n in ([T1] + allowed_fwd + [T2])],
                     "src",
                     _shape_tuple(src),
                     "dst",
@@ -1982,7 +1995,7 @@ def remove_identity_reshapes_ir(graph: ir.Graph) -> None:
         changed = False
         nodes = list(graph)
         for node in list(nodes):
-            if node.op_type != "Reshape":
+            if _op_type(node) != "Reshape":
                 continue
             ins = _node_inputs(node)
             outs = _node_outputs(node)
@@ -2082,7 +2095,7 @@ def propagate_unary_shapes_ir(graph: ir.Graph) -> None:
     if not nodes:
         return
     for n in nodes:
-        op = n.op_type
+        op = _op_type(n)
         if op not in UNARY_DATAFLOW_OPS or (getattr(n, "domain", "") or "") != "":
             continue
         ins = _node_inputs(n)
@@ -2103,7 +2116,7 @@ def propagate_elementwise_shapes_ir(graph: ir.Graph) -> None:
         return
     for node in nodes:
         if (
-            node.op_type in ELEMENTWISE_BINARY_OPS
+            _op_type(node) in ELEMENTWISE_BINARY_OPS
             and (getattr(node, "domain", "") or "") == ""
         ):
             _refresh_elementwise_output_shape(node)
@@ -2257,7 +2270,7 @@ def _match_mul_sigmoid_silu_inputs(
 ) -> tuple[ir.Value, ir.Node] | None:
     for sigmoid_output, passthrough in ((lhs, rhs), (rhs, lhs)):
         sigmoid_node = _producer_node(nodes, sigmoid_output)
-        if sigmoid_node is None or sigmoid_node.op_type != "Sigmoid":
+        if sigmoid_node is None or _op_type(sigmoid_node) != "Sigmoid":
             continue
         sigmoid_inputs = _node_inputs(sigmoid_node)
         if len(sigmoid_inputs) != 1:
@@ -2308,7 +2321,7 @@ def rewrite_mul_sigmoid_as_swish_ir(graph: ir.Graph) -> None:
         changed = False
         nodes = list(graph)
         for node in nodes:
-            if node.op_type != "Mul":
+            if _op_type(node) != "Mul":
                 continue
             inputs = _node_inputs(node)
             if len(inputs) != 2:
@@ -2380,7 +2393,7 @@ def rewrite_mul_rsqrt_as_div_ir(graph: ir.Graph) -> None:
         changed = False
         nodes = list(graph)
         for node in nodes:
-            if node.op_type != "Mul":
+            if _op_type(node) != "Mul":
                 continue
             mul_inputs = _node_inputs(node)
             if len(mul_inputs) != 2:
@@ -2393,10 +2406,10 @@ def rewrite_mul_rsqrt_as_div_ir(graph: ir.Graph) -> None:
                     if DEBUG:
                         _dbg("rewrite_mul_rsqrt skip: no producer", _v_name(inv_val))
                     continue
-                if div_node.op_type != "Div":
+                if _op_type(div_node) != "Div":
                     if DEBUG:
                         _dbg(
-                            "rewrite_mul_rsqrt skip: producer not Div", div_node.op_type
+                            "rewrite_mul_rsqrt skip: producer not Div", _op_type(div_node)
                         )
                     continue
                 consumers = _consumer_nodes(nodes, inv_val)
@@ -2419,11 +2432,11 @@ def rewrite_mul_rsqrt_as_div_ir(graph: ir.Graph) -> None:
                     if DEBUG:
                         _dbg("rewrite_mul_rsqrt skip: denominator producer missing")
                     continue
-                if denom_producer.op_type != "Sqrt":
+                if _op_type(denom_producer) != "Sqrt":
                     if DEBUG:
                         _dbg(
                             "rewrite_mul_rsqrt skip: denominator producer not Sqrt",
-                            denom_producer.op_type,
+                            _op_type(denom_producer),
                         )
                     continue
                 if other_val is None or denominator is None:
@@ -2470,7 +2483,7 @@ def _read_scalar_bool_from_value_or_constant(
     if producer is None:
         return None
     node = producer
-    if node.op_type != "Constant":
+    if _op_type(node) != "Constant":
         return None
 
     for output in _node_outputs(node):
@@ -2505,7 +2518,7 @@ def inline_dropout_training_mode_constants_ir(graph: ir.Graph) -> None:
     del_not_nodes: Set[ir.Node] = set()
 
     for idx, n in enumerate(nodes):
-        if n.op_type != "Dropout":
+        if _op_type(n) != "Dropout":
             continue
         ins = _node_inputs(n)
         if len(ins) < 3:
@@ -2529,7 +2542,7 @@ def inline_dropout_training_mode_constants_ir(graph: ir.Graph) -> None:
             except ValueError:
                 pidx = -1
 
-            if pidx != -1 and producer.op_type == "Not":
+            if pidx != -1 and _op_type(producer) == "Not":
                 _dbg_tm("tm producer is Not")
                 not_in = _first_input(producer)
                 if isinstance(not_in, ir.Value) and not_in.is_graph_input():
@@ -2637,7 +2650,7 @@ def remove_orphan_transposes_ir(graph: ir.Graph) -> None:
         to_remove: List[ir.Node] = []
 
         for node in nodes:
-            if node.op_type != "Transpose":
+            if _op_type(node) != "Transpose":
                 continue
 
             outputs = _node_outputs(node)
